@@ -1114,3 +1114,15 @@ def closure_aggregates(fnode, clo):
     """The closure plus 'min' / 'max' for every running extreme in it."""
     rx = running_extremes(fnode)
     return set(clo) | {rx[n] for n in clo if n in rx}
+
+
+def shared_rule(run, fn, args, src, dst, suffix=''):
+    """Run a rule written for one property under the rule id of another (same obligations, renamed)."""
+    run.attempt(fn, *args)
+    if src in run.rules:
+        run.rules[dst] = run.rules.pop(src) + suffix
+    for o in run.obs:
+        if o.rule == src:
+            o.rule = dst
+    run.floors = [((dst if r == src else r), c, m) for r, c, m in run.floors]
+    run.notes = [n.replace(src, dst) for n in run.notes]
